@@ -11,6 +11,11 @@
 #include <yaclib/async/wait.hpp>
 #include <yaclib/async/when_all.hpp>
 #include <yaclib/async/when_any.hpp>
+#include <yaclib/coro/await.hpp>
+#include <yaclib/coro/future.hpp>
+#include <yaclib/coro/mutex.hpp>
+#include <yaclib/coro/shared_mutex.hpp>
+#include <yaclib/exe/inline.hpp>
 #include <yaclib/exe/strand.hpp>
 #include <yaclib/exe/submit.hpp>
 #include <yaclib/runtime/fair_thread_pool.hpp>
@@ -18,6 +23,7 @@
 #include <atomic>
 #include <cstdio>
 #include <cstdlib>
+#include <random>
 #include <string>
 #include <thread>
 #include <vector>
@@ -211,6 +217,176 @@ void PoolPipeline(int iters) {
   tp->Wait();
 }
 
+inline void Spin(unsigned n) {
+  for (volatile unsigned i = 0; i < n; i = i + 1) {
+  }
+}
+
+// --- hand-off with jitter: a persistent producer, so that Set lands before / inside / after the consumer's attach
+void HandOffRace(int iters) {
+  iters *= 100;
+  static long side = 0;
+  std::atomic<yaclib::Promise<Payload>*> slot{nullptr};
+  std::atomic<bool> stop{false};
+  std::thread producer([&] {
+    std::mt19937 rng{1};
+    for (;;) {
+      yaclib::Promise<Payload>* p;
+      while ((p = slot.load(std::memory_order_acquire)) == nullptr) {
+        if (stop.load(std::memory_order_relaxed)) return;
+      }
+      slot.store(nullptr, std::memory_order_relaxed);
+      Spin(rng() % 64);
+      side += 1;
+      std::move(*p).Set(Payload{1, 2, static_cast<int>(side)});
+      delete p;
+    }
+  });
+  std::mt19937 rng{2};
+  long sink = 0;
+  for (int i = 0; i < iters; ++i) {
+    auto [f, p] = yaclib::MakeContract<Payload>();
+    slot.store(new yaclib::Promise<Payload>{std::move(p)}, std::memory_order_release);
+    Spin(rng() % 64);
+    if (i % 2 == 0) {
+      auto r = std::move(f).Get();
+      sink += std::as_const(r).Value()[2];
+    } else {
+      std::atomic<bool> ran{false};
+      std::move(f).DetachInline([&](yaclib::Result<Payload>&& r) {
+        sink += std::as_const(r).Value()[2];
+        ran.store(true, std::memory_order_release);
+      });
+      while (!ran.load(std::memory_order_acquire)) {
+      }
+    }
+    sink += side;
+  }
+  stop.store(true);
+  producer.join();
+  if (sink == 0) std::abort();
+}
+
+// --- strand over the inline executor: the strand word alone orders the jobs of two client threads
+void StrandInline(int iters) {
+  iters *= 20;
+  static long counter;
+  counter = 0;
+  auto strand = yaclib::MakeStrand(yaclib::IExecutorPtr{yaclib::NoRefTag{}, &yaclib::MakeInline()});
+  auto client = [&](unsigned seed) {
+    std::mt19937 rng{seed};
+    for (int i = 0; i < iters; ++i) {
+      yaclib::Submit(*strand, [] { ++counter; });
+      Spin(rng() % 256);
+    }
+  };
+  std::thread x{client, 1U}, y{client, 2U};
+  x.join();
+  y.join();
+  if (counter != 2L * iters) std::abort();
+}
+
+// --- strand over an executor that runs every activation on a fresh thread
+struct SpawnExecutor final : yaclib::IExecutor {
+  Type Tag() const noexcept final { return Type::Custom; }
+  bool Alive() const noexcept final { return true; }
+  void Submit(yaclib::Job& job) noexcept final {
+    live.fetch_add(1, std::memory_order_relaxed);
+    std::thread{[this, &job] {
+      job.Call();
+      live.fetch_sub(1, std::memory_order_release);
+    }}.detach();
+  }
+  std::atomic<int> live{0};
+};
+
+void StrandSpawn(int iters) {
+  static long counter;
+  counter = 0;
+  SpawnExecutor spawn;
+  std::mt19937 rng{3};
+  {
+    auto strand = yaclib::MakeStrand(yaclib::IExecutorPtr{yaclib::NoRefTag{}, &spawn});
+    for (int i = 0; i < iters; ++i) {
+      std::atomic<int> done{0};
+      yaclib::Submit(*strand, [&] {
+        ++counter;
+        done.fetch_add(1, std::memory_order_release);
+      });
+      Spin(rng() % 20000);
+      yaclib::Submit(*strand, [&] {
+        ++counter;
+        done.fetch_add(1, std::memory_order_release);
+      });
+      while (done.load(std::memory_order_acquire) != 2) std::this_thread::yield();
+    }
+    while (spawn.live.load(std::memory_order_acquire) != 0) std::this_thread::yield();
+  }
+  if (counter != 2L * iters) std::abort();
+}
+
+// --- coroutine Mutex / SharedMutex: critical sections touch plain data
+yaclib::Future<> MutexWorker(yaclib::Mutex<>& m, long& cs, int iters, unsigned seed) {
+  std::mt19937 rng{seed};
+  for (int i = 0; i < iters; ++i) {
+    co_await m.Lock();
+    ++cs;
+    m.UnlockHere();
+    Spin(rng() % 32);
+  }
+  co_return{};
+}
+
+void CoMutex(int iters) {
+  iters *= 50;
+  static long cs;
+  cs = 0;
+  yaclib::Mutex<> m;
+  std::vector<std::thread> ts;
+  for (int t = 0; t < 4; ++t) {
+    ts.emplace_back([&, t] {
+      auto f = MutexWorker(m, cs, iters, 100U + static_cast<unsigned>(t));
+      std::ignore = std::move(f).Get();
+    });
+  }
+  for (auto& t : ts) t.join();
+  if (cs != 4L * iters) std::abort();
+}
+
+yaclib::Future<> SharedMutexWorker(yaclib::SharedMutex<>& m, long& data, long& sum, int iters, bool writer, unsigned seed) {
+  std::mt19937 rng{seed};
+  for (int i = 0; i < iters; ++i) {
+    if (writer) {
+      co_await m.Lock();
+      ++data;
+      m.UnlockHere();
+    } else {
+      co_await m.LockShared();
+      sum += data;
+      m.UnlockHereShared();
+    }
+    Spin(rng() % 32);
+  }
+  co_return{};
+}
+
+void CoSharedMutex(int iters) {
+  iters *= 20;
+  static long data;
+  data = 0;
+  yaclib::SharedMutex<> m;
+  long sums[3] = {0, 0, 0};
+  std::vector<std::thread> ts;
+  for (int t = 0; t < 4; ++t) {
+    ts.emplace_back([&, t] {
+      auto f = SharedMutexWorker(m, data, sums[t % 3], iters, t == 0, 200U + static_cast<unsigned>(t));
+      std::ignore = std::move(f).Get();
+    });
+  }
+  for (auto& t : ts) t.join();
+  if (data != iters) std::abort();
+}
+
 }  // namespace
 
 int main(int argc, char** argv) {
@@ -220,7 +396,10 @@ int main(int argc, char** argv) {
   const S all[] = {{"handoff_continuation", HandOffContinuation}, {"handoff_get", HandOffGet},
                    {"shared_moveout", SharedMoveOut},             {"shared_subscribers", SharedSubscribers},
                    {"strand_counter", StrandCounter},             {"when_all", WhenAllVector},
-                   {"when_any", WhenAnyFirst},                    {"pool_pipeline", PoolPipeline}};
+                   {"when_any", WhenAnyFirst},                    {"pool_pipeline", PoolPipeline},
+                   {"handoff_race", HandOffRace},                 {"strand_inline", StrandInline},
+                   {"strand_spawn", StrandSpawn},                 {"comutex", CoMutex},
+                   {"cosharedmutex", CoSharedMutex}};
   bool ran = false;
   for (auto& s : all) {
     if (sc == "all" || sc == s.name) {
